@@ -18,6 +18,14 @@ DOCS = [
     '<mjml><mj-body><mj-section nope="1"><mj-column><mj-text>v</mj-text></mj-column></mj-section></mj-body></mjml>',  # 4: validation error + HTML
 ]
 DOCS.append("\n\n\n" + DOCS[4] + "\n")   # 5: document 4 behind three blank lines: same HTML, the reported line differs
+RAWNL = '<mjml><mj-body><mj-raw><p>a%sb</p></mj-raw><mj-section><mj-column><mj-text>x</mj-text></mj-column></mj-section></mj-body></mjml>'
+DOCS.append(RAWNL % "\n")       # 6 / 7: differ only in LF vs CRLF inside raw text: different HTML
+DOCS.append(RAWNL % "\r\n")
+DOCS.append(                      # 8: components that resolve inheritance / mixed content at render time
+    '<mjml><mj-body><mj-section><mj-column><mj-accordion padding="7px" container-background-color="#eee"><mj-accordion-element><mj-accordion-title>T</mj-accordion-title>'
+    '<mj-accordion-text>X</mj-accordion-text></mj-accordion-element></mj-accordion><mj-button href="https://x">Read <b>more</b>\n<i>now</i></mj-button>'
+    '<mj-social><mj-social-element name="facebook">F <b>b</b></mj-social-element></mj-social><mj-table><tr><td class="k" style="padding:1px"> c </td></tr></mj-table>'
+    '<mj-navbar><mj-navbar-link href="https://x">N</mj-navbar-link></mj-navbar></mj-column></mj-section></mj-body></mjml>')
 BAD = [3]
 
 # In the "swept" configuration the TTL is not a whole number of minutes, so that no sweep ever runs at
@@ -66,9 +74,9 @@ def random_history(rng, maxlen=40):
     for _ in range(n):
         r = rng.random()
         if r < 0.5:
-            ops.append(op_render(rng.choice([0, 0, 1, 2, 3, 4, 4, 5, 5]), True))
+            ops.append(op_render(rng.choice([0, 0, 1, 2, 3, 4, 4, 5, 5, 6, 7, 8, 8]), True))
         elif r < 0.6:
-            ops.append(op_render(rng.choice([0, 1, 2, 3, 4, 5]), False))
+            ops.append(op_render(rng.choice([0, 1, 2, 3, 4, 5, 6, 7, 8]), False))
         elif r < 0.8:
             ops.append(op_adv(rng.choice([1, 4, 5, 9, 10, 11, 30]) * MIN))
         elif r < 0.88:
